@@ -18,17 +18,46 @@ PROPS = {
         "groups": ["zone"],
         "design_ref": "§6 C06 zone lookups · C20 zone store · C21 validation · C22 catalog",
         "technique": "Lean 4 proof: tree lookup (lookup_impl) = flat-record-list RFC 1034 §4.3.2 / RFC 4592 specification for every add sequence, name, type and option combination (tree invariant + abstraction); model tied to src/db/hash_map_tree/{zone,node}.rs, src/db/rrset.rs by differential correspondence on whole zone sessions incl. exhaustive small zones",
+        "assumptions": [
+            "names are case-folded label lists: the model works on lower-cased labels (Label Eq/Hash are ASCII-case-insensitive, src/name/label.rs); the harness sends mixed-case names to the real code and lower-cases every name it returns before comparing",
+            "Rdata::equals is a parameter `eqv` of model, spec and theorems (no property of it is needed); the driver instantiates it with a transcription of src/rr/rdata/{mod,std13,helpers}.rs for the generated types A (IN and CH), NS, CNAME, SOA, MX, TXT, AAAA and octet equality for type 99 (MINFO and SRV are not generated)",
+            "RrsetList's binary_search_by_key on the Vec sorted by rr_type is modelled as a linear scan; equivalent on strictly sorted lists, and sortedness is a proved invariant of add (rrsetsAdd_sorted)",
+        ],
+        "evidence_notes": [
+            "one case = one zone session (header + adds + up to 64/128 lookup steps + iteration/validation); `evaluations` counts sessions, each holding ~100 compared step results",
+            "unchecked lookups of names not at or below the apex are outside the property (LookupOptions: 'may panic or return incorrect data'): such sessions are compared implementation-vs-model only (spec column '-'); the model reproduces the usize-underflow panic for names shorter than the apex",
+            "quick: exhaustive zones of <=2 records over a 24-record universe (labels a,b,*) + 250 random zones (<=40 records, 4-label alphabet incl. *, classes IN/CH/HS, both glue policies, case variants, duplicates, TTL/class mismatches, out-of-zone owners, invalid RDATA); thorough: exhaustive <=4 records (12 950 zones) + 1500 random zones",
+        ],
     },
     "C20": {
         "groups": ["zone"],
         "design_ref": "§6 C06 zone lookups · C20 zone store · C21 validation · C22 catalog",
         "strict_err": True,
         "technique": "Lean 4 proof: add succeeds ↔ owner/class/TTL conditions, rejected add leaves the tree unchanged, abstraction to the flat de-duplicated record list commutes with add, iteration is a permutation of the specified nodes/RRsets; correspondence on add sequences with iteration after every prefix",
+        "assumptions": [
+            "names are case-folded label lists: the model works on lower-cased labels (Label Eq/Hash are ASCII-case-insensitive, src/name/label.rs); the harness sends mixed-case names to the real code and lower-cases every name it returns before comparing",
+            "Rdata::equals is a parameter `eqv` of model, spec and theorems (no property of it is needed); the driver instantiates it with a transcription of src/rr/rdata/{mod,std13,helpers}.rs for the generated types A (IN and CH), NS, CNAME, SOA, MX, TXT, AAAA and octet equality for type 99 (MINFO and SRV are not generated)",
+            "RrsetList's binary_search_by_key on the Vec sorted by rr_type is modelled as a linear scan; equivalent on strictly sorted lists, and sortedness is a proved invariant of add (rrsetsAdd_sorted)",
+        ],
+        "evidence_notes": [
+            "strict_err: the three add failures (NotInZone, ClassMismatch, TtlMismatch) are named by the property and compared verbatim inside the session result (`e:<Variant>`)",
+            "every session applies failed adds too and keeps querying/iterating afterwards, so a rejected add that changed anything observable would differ from the specification's unchanged flat list",
+        ],
     },
     "C21": {
         "groups": ["zone"],
         "design_ref": "§6 C06 zone lookups · C20 zone store · C21 validation · C22 catalog",
         "technique": "Lean 4 proof: validate (as a set) = issues of a reference checker stated as a predicate over the flat record list; severity split extracted from ValidationIssue::is_error (tools/extract_validation.py); correspondence on random and exhaustive zones under both glue policies and classes IN/CH/HS",
+        "assumptions": [
+            "names are case-folded label lists: the model works on lower-cased labels (Label Eq/Hash are ASCII-case-insensitive, src/name/label.rs); the harness sends mixed-case names to the real code and lower-cases every name it returns before comparing",
+            "Rdata::equals is a parameter `eqv` of model, spec and theorems (no property of it is needed); the driver instantiates it with a transcription of src/rr/rdata/{mod,std13,helpers}.rs for the generated types A (IN and CH), NS, CNAME, SOA, MX, TXT, AAAA and octet equality for type 99 (MINFO and SRV are not generated)",
+            "RrsetList's binary_search_by_key on the Vec sorted by rr_type is modelled as a linear scan; equivalent on strictly sorted lists, and sortedness is a proved invariant of add (rrsetsAdd_sorted)",
+        ],
+        "evidence_notes": [
+            "interpretation: every NS RRset below the apex is checked as a delegation, including those occluded by a higher cut (the code's documented TODO behaviour); address checks apply in classes IN and CH only (class_has_addrs, extracted)",
+            "name extraction from NS/MX RDATA is a parameter of model and spec in the theorems; the driver uses the model of Name::try_from_uncompressed_all on the model side and the independent RFC 1035 decoder of QV.Spec.NameWire on the spec side",
+            "issues are compared as sorted, de-duplicated sets with their E/W flag taken from the real is_error(); Err(InvalidRdata) is compared as `V!InvalidRdata`",
+        ],
     },
 }
 
